@@ -2,6 +2,8 @@ import AlgopyVerif.Proofs.Prefix
 import AlgopyVerif.Proofs.SpecialFns
 import AlgopyVerif.Proofs.LinalgPrefix
 import AlgopyVerif.Proofs.FactorPrefix
+import AlgopyVerif.Proofs.TapeNatural
+import Mathlib.RingTheory.Polynomial.Quotient
 /-!
 # C12 — low-order coefficients do not depend on the truncation degree
 
@@ -23,7 +25,11 @@ the jet of a function that does not depend on `D` (`slow_generic_prefix`, `dawsn
 The matrix kernels `dot`, `inv`, `solve` over any ring (`dot_matrix_prefix`, `inv_matrix_prefix`,
 `solve_matrix_prefix`).  Factorizations (`qr_prefix`, `cholesky_prefix`, `lu_prefix`, `eigh_prefix`): two runs whose inputs agree up to
 order `m`, with the same zeroth-order leaves, both obeying the order-`d` step equations (the hypotheses tied to
-the code in C08), agree up to order `m`.  Not proved: the two fold-based kernels over other fields; svd, eig.
+the code in C08), agree up to order `m`.  **Reverse sweep** (`reverse_sweep_truncation`): the truncation `S[t]/(t^D) → S[t]/(t^D')` is a ring
+homomorphism (`truncHom`), and every ring homomorphism commutes with the reverse sweep of tapes whose computations commute with it
+(ring operations do for free, `ring_ops_truncation_compatible`; a series kernel does by its `*_prefix` theorem): the first `D'`
+coefficients of every adjoint of a sweep with `D` coefficients are the adjoints of the sweep with `D'` coefficients.
+Not proved: the two fold-based kernels over other fields; svd, eig.
 -/
 namespace AV.C12
 variable {K : Type} [Field K]
@@ -195,5 +201,47 @@ theorem sincos_D1 (s0 c0 x0 : K) : sincosS s0 c0 [x0] = ([s0], [c0]) := by
 /-- non-vacuity: a concrete series of length 4 truncated to 2 -/
 example : (mulS [(1:ℚ), 2, 3, 4] [5, 6, 7, 8]).take 2 = mulS [1, 2] [5, 6] :=
   mul_prefix _ _ 2 (by decide)
+
+
+section
+open AV.Tape Polynomial
+variable {S : Type} [CommRing S]
+
+/-- truncation `S[t]/(t^D) → S[t]/(t^D')` for `D' ≤ D`, a ring homomorphism -/
+noncomputable def truncHom (D D' : Nat) (h : D' ≤ D) :
+    (S[X] ⧸ Ideal.span {(X : S[X]) ^ D}) →+* (S[X] ⧸ Ideal.span {(X : S[X]) ^ D'}) :=
+  Ideal.Quotient.factor (Ideal.span_singleton_le_span_singleton.mpr (pow_dvd_pow X h))
+
+/-- truncation of the class of a polynomial is the class of the polynomial -/
+theorem truncHom_mk (D D' : Nat) (h : D' ≤ D) (f : S[X]) :
+    truncHom D D' h (Ideal.Quotient.mk _ f) = Ideal.Quotient.mk _ f := by
+  unfold truncHom; simp
+
+/-- **the reverse sweep commutes with every ring homomorphism** `φ` (tapes whose computations commute with `φ`) -/
+theorem reverse_sweep_ring_hom {A B : Type} [CommRing A] [CommRing B] (φ : A →+* B) (t : List (Instr A)) (t' : List (Instr B))
+    (hc : List.Forall₂ (Instr.Compat φ) t t') (h bar : Heap A) (c : Nat) :
+    φ (rev t h bar c) = rev t' (fun i => φ (h i)) (fun i => φ (bar i)) c :=
+  congrFun (rev_natural φ (map_add φ) (map_zero φ) t t' hc h bar) c
+
+/-- **truncation**: the adjoints of a sweep with `D` coefficients, truncated to `D'` coefficients, are the adjoints of the
+sweep of the truncated values and seeds -/
+theorem reverse_sweep_truncation (D D' : Nat) (hD : D' ≤ D)
+    (t : List (Instr (S[X] ⧸ Ideal.span {(X : S[X]) ^ D}))) (t' : List (Instr (S[X] ⧸ Ideal.span {(X : S[X]) ^ D'})))
+    (hc : List.Forall₂ (Instr.Compat (truncHom D D' hD)) t t') (h bar : Heap (S[X] ⧸ Ideal.span {(X : S[X]) ^ D})) (c : Nat) :
+    truncHom D D' hD (rev t h bar c) = rev t' (fun i => truncHom D D' hD (h i)) (fun i => truncHom D D' hD (bar i)) c :=
+  reverse_sweep_ring_hom (truncHom D D' hD) t t' hc h bar c
+
+/-- ring operations commute with truncation (so every polynomial program satisfies the hypothesis) -/
+theorem ring_ops_truncation_compatible (D D' : Nat) (hD : D' ≤ D) (dst a b : Nat) :
+    Comp.Compat (truncHom (S := S) D D' hD) (addComp dst a b) (addComp dst a b)
+    ∧ Comp.Compat (truncHom (S := S) D D' hD) (subComp dst a b) (subComp dst a b)
+    ∧ Comp.Compat (truncHom (S := S) D D' hD) (mulComp dst a b) (mulComp dst a b) :=
+  ⟨addComp_compat _ dst a b, subComp_compat _ dst a b, mulComp_compat _ dst a b⟩
+
+/-- non-vacuity: `c2 := c0 * c1; c0 := c2` with 3 coefficients is compatible with itself with 2 coefficients -/
+example : List.Forall₂ (Instr.Compat (truncHom (S := ℤ) 3 2 (by decide)))
+    [.comp (mulComp 2 0 1), .write 0 2] [.comp (mulComp 2 0 1), .write 0 2] :=
+  .cons (.comp _ _ (mulComp_compat _ 2 0 1)) (.cons (.write 0 2) .nil)
+end
 
 end AV.C12
